@@ -895,6 +895,12 @@ func (w *World) havocReach(s *State, v Val, seen map[interface{}]bool) {
 			s.writes = append(s.writes[:len(s.writes):len(s.writes)], writeRec{obj: x.Root, path: x.Path, what: "callee modifies"})
 		}
 		cur, ok := s.mem[x.Root]
+		if !ok && len(x.Path) > 0 {
+			// only a part of the object is modified: materialise its (shared,
+			// lazily created) initial contents first, so the rest is retained
+			w.objVal(s, x.Root)
+			cur, ok = s.mem[x.Root]
+		}
 		if !ok {
 			// never read in this state: give it fresh contents now (the shared
 			// initial contents no longer apply)
@@ -1209,10 +1215,10 @@ func (w *World) ghostHavoc(s *State, id string) {
 // name, spaces removed); distinct names are distinct constants.
 func (w *World) typeConst(st *State, name string) string {
 	name = strings.ReplaceAll(name, " ", "")
-	tc := w.st.declare("type_"+sanitize(name), nil, sortU)
-	tid := w.st.declare("type_id", []string{sortU}, bvSort(64))
 	h := fnv.New64a()
 	h.Write([]byte(name))
+	tc := w.st.declare(fmt.Sprintf("type_%s_%04x", sanitize(name), h.Sum64()&0xffff), nil, sortU)
+	tid := w.st.declare("type_id", []string{sortU}, bvSort(64))
 	ax := mkEq(app(tid, tc), bvLit(h.Sum64(), 64))
 	for _, a := range st.pc {
 		if a == ax {
